@@ -17,6 +17,9 @@ def run(ctx):
                         "transition; the 4x4 transition table equals the protocol's")
     res.rule("C05-R6", "deliver on last, from the current key's entry; version and message type delivered are the first segment's (written "
                         "only by the first-segment constructor)")
+    res.rule("C05-R7", "closed world of rejections: every `return false` of addSegment is decided by a protocol reason (version, message type or "
+                        "counter mismatch, declared length exceeding the frame, invalid transition) or by a size limit that only rejects reassembled "
+                        "payloads above 65535 bytes (linear form over buffer size and declared length)")
     res.not_decided += ["exactly-once delivery under every interleaving (history/schedule quantifier): only the structural premises are decided"]
     D.rule_keyed_access(res, "C05-R1", m)
     D.rule_key_equality(res, "C05-R2", m)
@@ -24,9 +27,11 @@ def run(ctx):
     n4 = D.rule_declared_length(res, "C05-R4", m)
     D.rule_accept_guard(res, "C05-R5", m)
     D.rule_deliver_release(res, "C05-R6", m)
+    D.rule_reject_reasons(res, "C05-R7", m)
     res.floor("C05-R1", 8)
     res.floor("C05-R3", 1)
     res.floor("C05-R4", 2, n4)
     res.floor("C05-R5", 20)
     res.floor("C05-R6", 8)
+    res.floor("C05-R7", 5)
     return res
